@@ -41,12 +41,24 @@ func setupC05(x *Ctx) {
 	}
 	startDelayB := []time.Duration{0, 0, time.Second, 5 * time.Second, 30 * time.Second}[x.Choose("start-delay-B", 5)]
 	regBeforeStart := x.Chance("register-before-start", 0.5)
+	// a reset placed inside a handshake: after the n-th chunk delivered on the k-th connection
+	cutConn, cutChunk := 0, 0
+	if x.Chance("cut-in-handshake", 0.35) {
+		cutConn = 1 + x.Choose("cut-conn", 3)
+		cutChunk = 1 + x.Choose("cut-chunk", 26)
+		x.Net.OnDeliver = func(cn *simnet.Conn) {
+			if cn.ID() == cutConn && cn.Delivered+cn.Peer().Delivered == cutChunk {
+				x.Probe("cut-in-handshake")
+				cn.Cut()
+			}
+		}
+	}
 	nDist := x.Biased("disturbances", 5, 0.35)
 	var dist []string
 	for i := 0; i < nDist; i++ {
 		dist = append(dist, c05Disturb[x.Choose("disturbance", len(c05Disturb))])
 	}
-	x.SigAdd(fmt.Sprintf("lat=%v", lat), fmt.Sprintf("mdns=%v", mdnsDelay), fmt.Sprintf("regBefore=%v", regBeforeStart), fmt.Sprintf("dist=%v", dist))
+	x.SigAdd(fmt.Sprintf("lat=%v", lat), fmt.Sprintf("mdns=%v", mdnsDelay), fmt.Sprintf("regBefore=%v", regBeforeStart), fmt.Sprintf("dist=%v cut=%d/%d", dist, cutConn, cutChunk))
 
 	startNode := func(n *hubNode, peer *hubNode, delay time.Duration) {
 		x.Go(n.name+":start", func() {
@@ -127,7 +139,7 @@ func setupC05(x *Ctx) {
 			x.S.Stop("done")
 		}
 	})
-	x.SetSample(map[string]any{"latency": lat.String(), "asymmetric": asym, "mdns_delay": mdnsDelay.String(), "start_delay_B": startDelayB.String(), "register_before_start": regBeforeStart, "disturbances": dist, "bystander": third})
+	x.SetSample(map[string]any{"latency": lat.String(), "asymmetric": asym, "mdns_delay": mdnsDelay.String(), "start_delay_B": startDelayB.String(), "register_before_start": regBeforeStart, "disturbances": dist, "bystander": third, "reset_after_chunk": fmt.Sprintf("connection %d, chunk %d", cutConn, cutChunk)})
 }
 
 // checkConverged is the C05 oracle (runs in a harness task after the quiet period).
